@@ -228,6 +228,8 @@ func (c Dirs) Files(s Src) map[string]string {
 	fmt.Fprintf(&b, "filegroup(name=\"ff\", srcs=[\"f.txt\"])\n")
 	fmt.Fprintf(&b, "genrule(name=\"h\", srcs=[\":ff\"], outs=[\"h.out\"], cmd=%q)\n", fmt.Sprintf(logPfx, "//p:h")+catCmd)
 	// a declared output that is itself a symlink (lib.so -> lib.so.1): its recorded rule hash lives in a side file, not in an xattr
+	// two regular output files (each carries the recorded hashes; a cache restore links them one after the other)
+	fmt.Fprintf(&b, "genrule(name=\"m\", srcs=[\"d.txt\"], outs=[\"m1.out\", \"m2.out\"], cmd=%q)\n", fmt.Sprintf(logPfx, "//p:m")+"read -r x < $SRCS; echo $x > m1.out; echo $x$x > m2.out")
 	fmt.Fprintf(&b, "genrule(name=\"k\", srcs=[\"d.txt\"], outs=[\"k.txt\", \"k.lnk\"], cmd=%q)\n", fmt.Sprintf(logPfx, "//p:k")+"read -r x < $SRCS; echo $x > k.txt; ln -s k.txt k.lnk")
 	fs := map[string]string{"p/BUILD": b.String(), "p/d.txt": s["d_txt"] + "\n", "p/sdir/" + s["s_name"]: s["s_txt"] + "\n", "p/f.txt": s["f_txt"] + "\n"}
 	if c.Config != "" {
@@ -250,6 +252,7 @@ func (c Dirs) Targets(s Src) []Target {
 		{"//p:ff", []string{"plz-out/gen/p/f.txt"}},
 		{"//p:h", []string{"plz-out/gen/p/h.out"}},
 		{"//p:k", []string{"plz-out/gen/p/k.txt", "plz-out/gen/p/k.lnk"}},
+		{"//p:m", []string{"plz-out/gen/p/m1.out", "plz-out/gen/p/m2.out"}},
 	}
 }
 
@@ -265,7 +268,7 @@ func (c Dirs) Sigs(s Src, clean *Obs) map[string]string {
 	files := c.Files(s)
 	defs := map[string]string{}
 	for _, l := range strings.Split(files["p/BUILD"], "\n") {
-		for _, n := range []string{"d", "e", "fg", "t", "g", "ff", "h", "k"} {
+		for _, n := range []string{"d", "e", "fg", "t", "g", "ff", "h", "k", "m"} {
 			if strings.Contains(l, "name=\""+n+"\"") {
 				defs["//p:"+n] = l
 			}
@@ -277,6 +280,7 @@ func (c Dirs) Sigs(s Src, clean *Obs) map[string]string {
 		"//p:g": defs["//p:g"] + "|" + clean.Outs["//p:fg"] + "|" + clean.Outs["//p:t"],
 		"//p:h": defs["//p:h"] + "|" + clean.Outs["//p:ff"],
 		"//p:k": defs["//p:k"] + "|" + files["p/d.txt"],
+		"//p:m": defs["//p:m"] + "|" + files["p/d.txt"],
 	}
 }
 
